@@ -182,7 +182,7 @@ def shape_of(t):
 
 
 # ---------------------------------------------------------------- arbitrary well-formed trees
-ARB_CATS = ['NP', 'S[dcl]\\NP', '(S\\NP)/NP', 'N', 'S[X]/(S[X]\\NP)', ',', 'conj']
+ARB_CATS = ['NP', 'S[dcl]\\NP', '(S\\NP)/NP', 'N', 'S[X]/(S[X]\\NP)', ',', 'conj', 'NP[conj]', 'S/NP[conj]']
 ARB_JA_CATS = ['NP[case=nc,mod=nm,fin=f]', 'S[mod=nm,form=base,fin=f]\\NP[case=ga,mod=nm,fin=f]', 'S[mod=nm,form=base,fin=f]']
 ARB_LABELS = [('fa', '>'), ('ba', '<'), ('fc', '>B'), ('bx', '<B'), ('rp', '<rp>')]
 ARB_JA_LABELS = [('fa', '>'), ('bx', '<B2'), ('other', 'SSEQ'), ('ba', '<')]
